@@ -86,6 +86,7 @@ func init() {
 		"reflect.Indirect":              ext۰reflect۰Indirect,
 		"reflect.Append":                ext۰reflect۰Append,
 		"reflect.MakeSlice":             ext۰reflect۰MakeSlice,
+		"reflect.StructOf":              ext۰reflect۰StructOf,
 		"math.Float32bits":              func(fr *frame, a []value) value { return math.Float32bits(a[0].(float32)) },
 		"math.Float32frombits":          func(fr *frame, a []value) value { return math.Float32frombits(a[0].(uint32)) },
 		"math.Float64bits":              func(fr *frame, a []value) value { return math.Float64bits(a[0].(float64)) },
